@@ -216,6 +216,24 @@ func execEngine(args []string) string {
 		b2 := search.VerifCalculateTime(side, iv[1], sp2)
 		return fmt.Sprintf("budget=%d p.ltclock=%s p.ltmovetime=%s p.indep=%s", b,
 			b2s(!(clock > 0) || b < clock), b2s(!(sp.MoveTime > 0) || b < sp.MoveTime), b2s(b == b2))
+	case "gotime":
+		// gotime <side> <plys> <intended movetime|0> <intended clock of the mover|0> <tokens…>: parse the go line, then compute the budget from it
+		side, _ := strconv.Atoi(args[1])
+		plys, _ := strconv.Atoi(args[2])
+		wantMt, _ := strconv.Atoi(args[3])
+		wantClock, _ := strconv.Atoi(args[4])
+		toks := make([]string, 0, len(args)-5)
+		for _, a := range args[5:] {
+			b, _ := hexDecode(a)
+			toks = append(toks, string(b))
+		}
+		var sp search.SearchParameter
+		_, pan := captureStdout(func() { sp = game.VerifParseGo(toks) })
+		if pan {
+			return "res=panic"
+		}
+		b := search.VerifCalculateTime(types.Color(side), plys, sp)
+		return fmt.Sprintf("budget=%d p.ltclock=%s p.ltmovetime=%s", b, b2s(!(wantClock > 0) || b < wantClock), b2s(!(wantMt > 0) || b < wantMt))
 	case "go":
 		toks := make([]string, 0, len(args)-1)
 		for _, a := range args[1:] {
@@ -441,7 +459,14 @@ func execOrder(args []string) string {
 			sorted = false
 		}
 	}
-	return fmt.Sprintf("scored=%s visit=%s p.perm=%s p.sorted=%s", wordsOf(scored), wordsOf(visit), b2s(perm), b2s(sorted))
+	// a scored move prints exactly like the generated move (the search prints scored words in bestmove and pv)
+	strok := true
+	for _, m := range visit {
+		if m.String() != move.Move(uint32(m)&0xFFFF).String() {
+			strok = false
+		}
+	}
+	return fmt.Sprintf("scored=%s visit=%s p.perm=%s p.sorted=%s p.strscore=%s", wordsOf(scored), wordsOf(visit), b2s(perm), b2s(sorted), b2s(strok))
 }
 
 // ---------- generators ----------
@@ -592,7 +617,11 @@ func ttOps(o *Out, seed uint64, n int) {
 				if rng.Intn(40) == 0 {
 					sc = 32767 - rng.Intn(60) // mate range: outside the property's domain for the score clause, still compared with the model
 				}
-				ops = append(ops, fmt.Sprintf("s:%016x:%d:%d:%d:%d:%d", h, 1+rng.Intn(4000), 1+rng.Intn(8), sc, rng.Intn(3), rng.Intn(120)))
+				mv := 1 + rng.Intn(4000)
+				if rng.Intn(8) == 0 {
+					mv = 0 // the search stores the null move when every legal move was futility-pruned
+				}
+				ops = append(ops, fmt.Sprintf("s:%016x:%d:%d:%d:%d:%d", h, mv, 1+rng.Intn(8), sc, rng.Intn(3), rng.Intn(120)))
 			} else {
 				al := scores[rng.Intn(len(scores))] + rng.Intn(5) - 2
 				be := al + 1 + rng.Intn(3)*rng.Intn(200)
@@ -670,10 +699,46 @@ func timeOps(o *Out, seed uint64, n int) {
 	}
 }
 
+// goTimeOps: the budget as the `go` command path computes it: standard clock parameters in random order, then the budget function
+func goTimeOps(o *Out, seed uint64, n int) {
+	rng := NewRng(seed)
+	pick := func() int { return []int{1, 30, 100, 1000, 60000, 180000, 2000, 5000}[rng.Intn(8)] }
+	for i := 0; i < n; i++ {
+		side := rng.Intn(2)
+		w, b, wi, bi, mtg := pick(), pick(), pick(), pick(), 1+rng.Intn(40)
+		mt := 0
+		items := [][]string{{"wtime", fmt.Sprint(w)}, {"btime", fmt.Sprint(b)}, {"winc", fmt.Sprint(wi)}, {"binc", fmt.Sprint(bi)}, {"movestogo", fmt.Sprint(mtg)}}
+		if rng.Intn(2) == 0 {
+			mt = pick()
+			items = append(items, []string{"movetime", fmt.Sprint(mt)})
+		}
+		if rng.Intn(4) == 0 {
+			items = append(items, []string{"depth", "12"})
+		}
+		// random order
+		for j := len(items) - 1; j > 0; j-- {
+			k := rng.Intn(j + 1)
+			items[j], items[k] = items[k], items[j]
+		}
+		var hs []string
+		for _, it := range items {
+			for _, t := range it {
+				hs = append(hs, hexOf(t))
+			}
+		}
+		clock := w
+		if side == 1 {
+			clock = b
+		}
+		o.Run(fmt.Sprintf("gotime %d %d %d %d %s", side, rng.Intn(120), mt, clock, strings.Join(hs, " ")))
+		o.Stat("go_time_lines")
+	}
+}
+
 func goOps(o *Out, seed uint64, n int) {
 	rng := NewRng(seed)
 	kws := []string{"wtime", "btime", "winc", "binc", "movestogo", "movetime", "depth", "nodes", "mate"}
-	vals := []string{"0", "1", "5", "100", "255", "60000", "-5", "+7", "999999999", "9223372036854775807"}
+	vals := []string{"0", "1", "5", "100", "255", "60000", "-5", "+7", "999999999", "9223372036854775807", "0500", "007", "+0", "-0", "0000", "010", "08"}
 	garbage := []string{"abc", "", "12a", "9223372036854775808", "--1", "infinite", "ponder", "searchmoves", "e2e4", "wtime", "\xff\xfe", "１２", "0x10", "1_000", " "}
 	for i := 0; i < n; i++ {
 		var toks []string
